@@ -84,7 +84,7 @@ def run(asm, unit, build_dir, tag='unit', rlimit=None, extra_args=(), timeout=90
     vr = res.json.get('verification-results', {})
     res.verified = vr.get('verified', 0)
     res.errors = vr.get('errors', 0)
-    res.failed, res.vac_failed, res.undecided, res.warnings = [], [], [], []
+    res.failed, res.vac_failed, res.undecided, res.warnings, res.compile_errors = [], [], [], [], []
     for line in p.stderr.split('\n'):
         line = line.strip()
         if not line.startswith('{'):
@@ -100,6 +100,11 @@ def run(asm, unit, build_dir, tag='unit', rlimit=None, extra_args=(), timeout=90
             continue
         msg = d.get('message', '')
         if any(re.search(p_, msg) for p_ in IGNORED):
+            continue
+        if d.get('code'):
+            # rustc front-end error (name resolution, types, borrow check): the assembled text does not
+            # compile -> machinery-level problem, never a verdict
+            res.compile_errors.append((msg, d.get('rendered', '')))
             continue
         spans = d.get('spans', [])
         prim = next((s for s in spans if s.get('is_primary')), spans[0] if spans else None)
@@ -127,6 +132,11 @@ def run(asm, unit, build_dir, tag='unit', rlimit=None, extra_args=(), timeout=90
                 res.vac_failed.append(Obl(msg, item, label, line_no, span_text, d.get('rendered', ''), True))
             else:
                 res.undecided.append('%s (%s line %s)' % (msg.split('\n')[0][:300], item or 'prelude', line_no))
+    if res.compile_errors:
+        seen = []
+        for m, _ in res.compile_errors:
+            if m not in seen: seen.append(m)
+        res.undecided.append('assembled unit does not compile: ' + ' | '.join(seen[:4]))
     if not res.json and not res.undecided:
         res.undecided.append('verus produced no json (rc=%s): %s' % (p.returncode, p.stderr[-400:]))
     # per-function breakdown
